@@ -5,6 +5,7 @@ import glob
 import json
 import os
 import random
+import re
 import shutil
 import subprocess
 import time
@@ -198,6 +199,10 @@ def run_fuzz(drv, pid, seed):
                     doc = json.load(open(f))
                     path = drv.save_replay(pid, sub, seed, doc["case"], doc["sig"], doc["verdict"], "libfuzzer")
                     violations.append({"sig": doc["sig"], "verdict": doc["verdict"], "replay": path})
+            elif any(a.startswith("crash-") for a in arts) and re.search(r"AddressSanitizer: (out of memory|requested allocation size|allocation-size-too-big)", errout):
+                # the allocator gave up: resource exhaustion is inconclusive, never a violation
+                status = "timeout"
+                notes.append("process %d: the sanitizer's allocator ran out of memory (inconclusive, not a violation): %s" % (i, " | ".join([x for x in errout.splitlines() if "ERROR" in x][:1])))
             elif any(a.startswith("crash-") for a in arts):
                 # memory error / abort inside the code under test: decode the input, confirm natively
                 for a in [a for a in arts if a.startswith("crash-")][:3]:
